@@ -249,13 +249,62 @@ Proof.
   exists r3. cbn [Nat.add]. erewrite run_ops_step; [| subst ps pi pv; lia | exact Hs]. f_equal. subst ps pi pv. lia.
 Qed.
 
+(* ---- set the <special / system property> = v ---- *)
+Definition assign_the_proc (k : thekind) : string :=
+  match k with TSystem => "AssignSystemPropertiesOpcode" | _ => "AssignSpecialPropertiesOpcode" end.
+Definition assign_the_opk (k : thekind) : opclass := match k with TSystem => OAssignSystemProps | _ => OAssignSpecialProps end.
+Lemma tbl_assign_the k : k = TSpecial \/ k = TSystem ->
+  assocZ (u8 (b 93) * 256 + u8 (b (the_code k))) BI_OPCODES = Some (2, "BiOpcode", assign_the_proc k, "").
+Proof. intros [-> | ->]; vm_compute; reflexivity. Qed.
+
+Lemma exec_set_the en props k i v : wf_s en (SSetThe k i v) -> exec_s_spec en props (SSetThe k i v).
+Proof.
+  intros (Hk & Hi & Hv) d off len a fuel r m [Hag Hpr] Hst Hc Hoff Hlen.
+  pose proof (the_small k i Hi) as Hsm.
+  cbn [compile_s ninstr_s] in *. rewrite !zlen_app in *. change (zlen [b 93; b (the_code k)]) with 2 in *.
+  apply code_at_app in Hc. destruct Hc as [Hcv Hc]. apply code_at_app in Hc. destruct Hc as [Hci Hcs].
+  pose proof (zlen_nonneg (compile_e v)). pose proof (zlen_nonneg (compile_int (the_num k i))).
+  replace (ninstr v + 2 + fuel)%nat with (ninstr v + (1 + (1 + fuel)))%nat by lia.
+  destruct (exec_e en v Hv d off len a (1 + (1 + fuel))%nat r m Hag Hcv ltac:(lia) ltac:(lia)) as [r1 E1]. rewrite E1.
+  set (m1 := after_e en a v m). set (pi := a + zlen (compile_e v)) in *.
+  pose proof (agrees_after_e en a v m Hag) as Hag1. fold m1 in Hag1.
+  assert (Hwi : wf_e en (EInt (the_num k i))) by (cbn [wf_e]; rewrite the_num_nat; destruct k; lia).
+  destruct (exec_int en (the_num k i) Hwi d off len pi (1 + fuel)%nat r1 m1 Hag1 Hci ltac:(subst pi; lia) ltac:(subst pi; cbn [compile_e]; lia)) as [r2 E2].
+  cbn [ninstr compile_e] in E2. rewrite E2.
+  set (m2 := after_e en pi (EInt (the_num k i)) m1). set (ps := pi + zlen (compile_int (the_num k i))) in *.
+  pose proof (agrees_after_e en pi (EInt (the_num k i)) m1 Hag1) as Hag2. fold m2 in Hag2.
+  assert (Htell : c_tell (m_ctx m2) = false) by (unfold agrees in Hag2; tauto).
+  assert (Hstk2 : m_stack m2 = Leaf KConst (str_of_int (the_num k i)) pi true :: [reify_e en a v]).
+  { subst m2 m1. rewrite !after_e_stack, Hst. reflexivity. }
+  assert (Hs : step d ps r2 m2 = Ok (ps + 2, r2, after_s en props a (SSetThe k i v) m)).
+  { eapply step_bi with (proc0 := "AssignSoundPropertiesOpcode") (attr0 := "") (oc := assign_the_opk k);
+      [exact Hcs | reflexivity | apply tbl_assign_the; exact Hk | destruct Hk as [-> | ->]; reflexivity |].
+    pose proof (the_process k i m2 pi Hi Htell) as Hp. rewrite Hstk2 in Hp. specialize (Hp eq_refl [reify_e en a v] eq_refl ps).
+    assert (E : (let! m' := process (the_opk k) 0 0 ps m2 in assign_top m' ps) = Ok (after_s en props a (SSetThe k i v) m)).
+    { rewrite Hp. cbn [bind]. unfold assign_top, pop, push, with_stack. cbn [m_stack bind]. f_equal.
+      unfold after_s, stmt_assign, add_stmt. cbn [reify_s globals_s].
+      apply mstate_eq; cbn [m_stack m_ctx m_fn f_globals f_name f_pos f_params f_locals f_stmts f_is_method set_stmts].
+      - rewrite Hst. reflexivity.
+      - subst m2 m1. destruct m as [? [? ? ? ? ? ? ?] ?]; reflexivity.
+      - subst m2 m1. rewrite !after_e_globals. cbn [globals_e add_globals fold_left]. reflexivity.
+      - subst m2 m1. destruct m as [? [? ? ? ? ? ? ?] ?]; reflexivity.
+      - subst m2 m1. destruct m as [? [? ? ? ? ? ? ?] ?]; reflexivity.
+      - subst m2 m1. destruct m as [? [? ? ? ? ? ? ?] ?]; reflexivity.
+      - subst m2 m1. destruct m as [? [? ? ? ? ? ? ?] ?]; reflexivity.
+      - subst m2 m1 ps pi. destruct m as [? [? ? ? ? ? ? ?] ?]; reflexivity.
+      - subst m2 m1. destruct m as [? [? ? ? ? ? ? ?] ?]; reflexivity. }
+    destruct Hk as [-> | ->]; cbn [assign_the_opk the_opk process] in *; exact E. }
+  exists r2. cbn [Nat.add]. erewrite run_ops_step; [| subst ps pi; lia | exact Hs]. f_equal. subst ps pi. lia.
+Qed.
+
 Theorem exec_s en props s : wf_s en s -> exec_s_spec en props s.
 Proof.
-  destruct s as [t e|f args|f args|f pid o v]; intros Hwf.
+  destruct s as [t e|f args|f args|f pid o v|k i v]; intros Hwf.
   - apply exec_set; exact Hwf.
   - apply (exec_call_stmt en props false f args); exact Hwf.
   - apply (exec_call_stmt en props true f args); exact Hwf.
   - apply exec_set_obj; exact Hwf.
+  - apply exec_set_the; exact Hwf.
 Qed.
 
 (* ---- a sequence of statements ---- *)
